@@ -4115,6 +4115,10 @@ typename Enable_If<Is_Same<T, Box<ITV> >::value
                    void>::type
 Box<ITV>::CC76_widening_assign(const T& y,
                                const Iterator first, const Iterator last) {
+  // Dimension-compatibility check.
+  if (space_dimension() != y.space_dimension()) {
+    throw_dimension_incompatible("CC76_widening_assign(y)", y);
+  }
   if (y.is_empty()) {
     return;
   }
